@@ -4460,14 +4460,44 @@ impl Handler {
             // Later statements act on the graph this one switches to.
             match &stmt {
                 statement::Statement::Meta(statement::MetaCommand::KgUse(name)) => {
-                    current_kg = Some(name.clone());
+                    // Like a refused create, a `.kg use` of a graph that does not exist (any
+                    // more) fails at execution and leaves the executor where it was - unless
+                    // graphs are auto-created, then it switches to the new, empty graph.
+                    let exists_by_then = created_here.iter().any(|k| k == name)
+                        || (!dropped_here.iter().any(|k| k == name)
+                            && self
+                                .storage
+                                .read()
+                                .list_knowledge_graphs()
+                                .iter()
+                                .any(|k| k == name));
+                    if exists_by_then || self.config.storage.auto_create_knowledge_graphs {
+                        current_kg = Some(name.clone());
+                    }
                 }
                 statement::Statement::Meta(statement::MetaCommand::KgCreate(name)) => {
-                    created_here.push(name.clone());
-                    current_kg = Some(name.clone());
+                    // A create that is refused (the graph exists already, invalid name, limit
+                    // reached) leaves the executor on the graph it was on: following it here
+                    // would authorize the rest of the program as the owner of a "new" graph
+                    // while it actually runs against the old one.
+                    let exists_by_then = created_here.iter().any(|k| k == name);
+                    let dropped_by_then = dropped_here.iter().any(|k| k == name);
+                    let accepted = !exists_by_then
+                        && match self.storage.read().check_create_knowledge_graph(name) {
+                            Ok(()) => true,
+                            Err(crate::storage::StorageError::KnowledgeGraphExists(_)) => {
+                                dropped_by_then
+                            }
+                            Err(_) => false,
+                        };
+                    if accepted {
+                        created_here.push(name.clone());
+                        current_kg = Some(name.clone());
+                    }
                 }
                 statement::Statement::Meta(statement::MetaCommand::KgDrop(name)) => {
                     dropped_here.push(name.clone());
+                    created_here.retain(|k| k != name);
                 }
                 _ => {}
             }
